@@ -8,7 +8,7 @@ import threading
 
 import numpy as np
 
-WRITERS = ["sweep", "nsga2", "nsga2_threads", "epsmoea"]
+WRITERS = ["sweep", "nsga2", "nsga2_threads", "epsmoea", "omopso", "smpso"]
 N_PARAMS = 2
 
 
@@ -79,6 +79,9 @@ def run_writer(kind, path, retlog, seed, on_event=None, marker=None):
             a.run()
         elif kind == "epsmoea":
             a = insitu.make("epsmoea", p, 4, 2)
+            a.run()
+        elif kind in ("omopso", "smpso"):
+            a = insitu.make(kind, p, 4, 2)
             a.run()
         else:
             raise ValueError(kind)
